@@ -758,14 +758,14 @@ Qed.
 
 (* ---- the Condorcet-runoff hybrids (Model/Hybrids.v) and the positional elimination (Model/Elimination.v): Benham,
    Tideman's alternative, Baldwin with any rank scorer - every elimination round, the merging of ballots that become equal,
-   every refusal and error outcome; both readings of the elimination step ([fx]) *)
-Theorem C11_scale_benham : forall (k : Z) fx (votes : Hybrids.rvotes), (0 < k)%Z ->
-  Hybrids.benham fx (map (fun bn => (fst bn, (k * snd bn)%Z)) votes) = Hybrids.benham fx votes.
-Proof. intros k fx votes Hk. exact (ScaleHyb_proofs.benham_scale k Hk fx votes). Qed.
+   every refusal and error outcome; every value of the repair flags ([fx] elimination step, [sc] single candidate, [tr] further tiers: all tiers for any number of seats) *)
+Theorem C11_scale_benham : forall (k : Z) fx sc (votes : Hybrids.rvotes), (0 < k)%Z ->
+  Hybrids.benham fx sc (map (fun bn => (fst bn, (k * snd bn)%Z)) votes) = Hybrids.benham fx sc votes.
+Proof. intros k fx sc votes Hk. exact (ScaleHyb_proofs.benham_scale k Hk fx sc votes). Qed.
 
-Theorem C11_scale_tideman_alternative : forall (k : Z) fx (votes : Hybrids.rvotes) n, (0 < k)%Z ->
-  Hybrids.tideman_alt fx (map (fun bn => (fst bn, (k * snd bn)%Z)) votes) n = Hybrids.tideman_alt fx votes n.
-Proof. intros k fx votes n Hk. exact (ScaleHyb_proofs.tideman_alt_scale k Hk fx votes n). Qed.
+Theorem C11_scale_tideman_alternative : forall (k : Z) fx sc tr (votes : Hybrids.rvotes) n, (0 < k)%Z ->
+  Hybrids.tideman_alt fx sc tr (map (fun bn => (fst bn, (k * snd bn)%Z)) votes) n = Hybrids.tideman_alt fx sc tr votes n.
+Proof. intros k fx sc tr votes n Hk. exact (ScaleHyb_proofs.tideman_alt_scale k Hk fx sc tr votes n). Qed.
 
 Theorem C11_scale_baldwin : forall (k : Z) (sc : Convert.scorer) (votes : Hybrids.rvotes) n, (0 < k)%Z ->
   Elimination.baldwin sc (map (fun bn => (fst bn, (k * snd bn)%Z)) votes) n = Elimination.baldwin sc votes n.
@@ -813,8 +813,8 @@ Example C11_hybrids_example :
                                  ([Convert.IP c; Convert.IP a; Convert.IP b], 2%Z)] in
   let votes' := map (fun bn : Convert.ranked * Z => (fst bn, (K * snd bn)%Z)) votes in
   condorcet_winner (Hybrids.pairwise votes) = [] /\
-  Hybrids.benham true votes' = Hybrids.H_ok [Cand a] /\ Hybrids.benham true votes = Hybrids.H_ok [Cand a] /\
-  Hybrids.tideman_alt true votes' 1 = Hybrids.H_ok [Cand a] /\
+  Hybrids.benham true true votes' = Hybrids.H_ok [Cand a] /\ Hybrids.benham true true votes = Hybrids.H_ok [Cand a] /\
+  Hybrids.tideman_alt true true true votes' 1 = Hybrids.H_ok [Cand a] /\
   Elimination.baldwin (Convert.Borda 0) votes' 1 = Elimination.B_ok [Cand a] /\
   Elimination.baldwin (Convert.Borda 0) votes 1 = Elimination.B_ok [Cand a].
 Proof. vm_compute. repeat split; reflexivity. Qed.
